@@ -136,6 +136,10 @@ pub struct Driver {
     /// long-term server side state
     pub srv: crate::server::LtServer,
     pub raw_log: Vec<(String, Vec<u8>)>,
+    /// when set, the events drained after each call are kept here (a later non-empty set replaces
+    /// an unread one, as in the client itself) so that a wrapper can hand them to its caller
+    pub keep_events: bool,
+    pub kept: Vec<StunClientEvent>,
 }
 
 /// attribute type codes of the application attribute kinds (in the order given)
@@ -224,6 +228,8 @@ impl Driver {
             stop: false,
             rng: StdRng::seed_from_u64(seed),
             raw_log: Vec::new(),
+            keep_events: false,
+            kept: Vec::new(),
         };
         let snap = d.snap_json();
         d.lines
@@ -233,6 +239,15 @@ impl Driver {
 
     fn instant(&self) -> Instant {
         self.base + Duration::from_micros(self.now_us)
+    }
+
+    /// origin of the trace's time axis (wrappers driven by foreign instants)
+    pub fn set_base(&mut self, i: Instant) {
+        self.base = i;
+    }
+
+    pub fn base(&self) -> Instant {
+        self.base
     }
 
     fn rel_us(&self, i: Instant) -> i64 {
@@ -370,10 +385,10 @@ impl Driver {
         a
     }
 
-    fn events_json(&mut self, op: &str) -> Vec<Value> {
+    pub fn events_json(&mut self, op: &str) -> Vec<Value> {
         let evs = self.client.events();
         let mut out = Vec::new();
-        for e in evs {
+        for e in &evs {
             match e {
                 StunClientEvent::OutputPacket(p) => {
                     let bytes: Vec<u8> = p.as_ref().to_vec();
@@ -394,7 +409,7 @@ impl Driver {
                 }
                 StunClientEvent::RestransmissionTimeOut((id, dur)) => {
                     let idn = self.idn(id.as_bytes());
-                    let (u, x) = us(dur);
+                    let (u, x) = us(*dur);
                     out.push(json!({"k":"rto","id":idn,"dur":u,"x":x}));
                 }
                 StunClientEvent::Retry(id) => {
@@ -424,6 +439,9 @@ impl Driver {
                                     "method":m.method().as_u16(),"nattrs":m.attributes().len()}));
                 }
             }
+        }
+        if self.keep_events && !evs.is_empty() {
+            self.kept = evs;
         }
         out
     }
@@ -619,7 +637,7 @@ impl Driver {
         }
     }
 
-    fn record(&mut self, op: &str, arg: Value, res: &str, idn: i64) {
+    pub fn record(&mut self, op: &str, arg: Value, res: &str, idn: i64) {
         if res == "panic" {
             self.dead = true;
             self.lines.push(json!({"op":op,"t":self.now_us,"arg":arg,"res":"panic","id":idn,
